@@ -4,6 +4,7 @@ import importlib
 import json
 import os
 import sys
+import time
 import traceback
 
 from . import core
@@ -20,6 +21,8 @@ def main(argv=None):
     if a.replay:
         os.environ['VERIF_REPLAY'] = '1'      # a replay never deletes replays nor rewrites evidence
         obj = json.load(open(a.replay))
+        if obj.get('via_hypothesis'):         # found by the tie of a hypothesis of this property's theorems
+            mod = importlib.import_module('harness.%s' % obj['via_hypothesis'].lower())
         rc = mod.replay(obj)
         sys.exit(rc)
     ck = core.Check(a.prop, a.tier, a.seed)
@@ -33,6 +36,22 @@ def main(argv=None):
         tb = traceback.format_exc()
         sys.stderr.write(tb)
         ck.broken.append('check crashed: ' + tb[-800:])
+    # the theorems of this property are about a model with HYPOTHESES that are other properties of this list
+    # (e.g. C01/C02: the store is a faithful map = C06, the locks are exclusive = C04): re-run their ties, reduced
+    if os.environ.get('VERIF_NO_HYPOTHESES') != '1':
+        for dep, (scale, text) in getattr(mod, 'HYPOTHESES', {}).items():
+            dmod = importlib.import_module('harness.%s' % dep.lower())
+            sub = core.Check(dep, 'quick', a.seed, parent=ck, scale=scale)
+            t0 = time.time()
+            try:
+                dmod.run(sub)
+            except KeyboardInterrupt:
+                raise
+            except BaseException:
+                tb = traceback.format_exc()
+                sys.stderr.write(tb)
+                sub.broken.append('check crashed: ' + tb[-800:])
+            ck.absorb(sub, text, time.time() - t0)
     rc = ck.finish(**getattr(mod, 'EVIDENCE', {}))
     sys.exit(rc)
 
